@@ -103,6 +103,13 @@ var URLExtras = []string{
 	"HTTP://H/", "http://u:p%3A%40@h/", "http://:@h", "http://@h", "http://u:@h", "http://:p@h",
 	"file:///etc/hosts", "file://localhost/c:/x", "grpc://h:1", "*", "/*", "a b", " http://h", "http://h ",
 	"http://h/?a b", "http://h?", "http://h#", "http://h?#", "http://h/;p=1?q", "//h", "//u@", "//u:p@",
+	// Rare code points where the URL text is emitted raw (query, opaque part,
+	// fragment): astral non-printables and noncharacters, C1 controls, tag
+	// characters, the last code point, format characters.
+	"http://h/?q=\U000E0001", "http://h/?\U000E0067\U000E0062\U000E007F", "http://h/?q=\U0010FFFF", "http://h/?q=\U0001D173",
+	"http://h/?q=\U0001FFFE", "http://h/?q=\uFFFE\uFFFF", "http://h/?q=\u0080\u009f", "http://h/?q=\u00ad\u200b\ufeff",
+	"a:\U000E0001", "mailto:\U0010FFFFu@h", "http://h/#\U000E0001", "http://h/?q=\U0001F600\U0001F3F4\U000E0067",
+	"http://h/?q=\u0000", "http://h/?q=\u001f\u007f", "http://h/?q=\ud7ff\ue000", "http://h/?q=\U00010000\U000EFFFF",
 }
 
 // URLEchoProduct calls f for URLs whose host, path, query and fragment repeat
